@@ -116,33 +116,38 @@ theorem C01_neg_timedelta_text : tdStr (-1000000) = "-1 day, 23:59:59".toList :=
 
 /-! ### the structural round trip -/
 
-/-- **C01 (structure).** For every type of the fragment int / float / str / bool / Decimal / Path / UUID / date / time /
-datetime / non-negative timedelta (canonical tokens, under the named `StdLaws`) / Enum (members with pairwise different
-values) / Optional[·] / list[·] / deque[·] / tuple[·, ...] / fixed tuples / dict[str, ·] / plain dataclass (no Meta, no skip
-rules, no catch-all or init=False fields; dump keys — first alias when `all=True`, else camelCase — that resolve back to
-their fields: `RT.PlainCls`, a decidable condition on the class), nested to any depth, and every value conforming to it (`RT.Conf`): whatever the dump
-produces, the JSON image of it (`RT.toJ` = what `json.loads(json.dumps(·))` returns) loads back to exactly the value.
-By induction over the conformance derivation; the dataclass case chains the generated field loop of the dumper into the
-key loop of the loader (`RT.fields_chain`) and the constructor step (`RT.buildFields_ok`). -/
-theorem C01_roundtrip_struct (std : Std) (laws : StdLaws std) (t : Ty) (v : PyVal) (hc : RT.Conf std t v) (d : DVal)
-    (h : dumpV std false none v = .ok d) : loadD std none t (RT.toJ d) = .ok v :=
-  RT.roundtrip std laws t v hc d h
+/-- **C01 (structure).** Below any travelling config `cfg` (the recursive Meta of the main class, or none), for every type
+of the fragment int / float / str / bool / Decimal / Path / UUID / date / time / datetime / non-negative timedelta
+(canonical tokens, under the named `StdLaws`) / Enum (members with pairwise different values) / Optional[·] / list[·] /
+deque[·] / tuple[·, ...] / fixed tuples / dict[str, ·] / dataclass — with or without a Meta of its own — whose effective
+Meta (`effMeta ci.cmeta cfg`: any key transforms, `recursive` …) has no skip rule / tag / TIMESTAMP mode, without
+catch-all or init=False fields, and whose dump keys (first alias when `all=True`, else the effective dump transform of the
+name) lead the loader back to their fields (`RT.PlainCls cfg`, a decidable condition on the class), nested to any depth,
+and every value conforming to it (`RT.Conf`): whatever the dump produces, the JSON image of it (`RT.toJ` = what
+`json.loads(json.dumps(·))` returns) loads back to exactly the value. By induction over the conformance derivation; the
+dataclass case chains the generated field loop of the dumper into the key loop of the loader (`RT.fields_chain`) and the
+constructor step (`RT.buildFields_ok`). -/
+theorem C01_roundtrip_struct (std : Std) (laws : StdLaws std) (cfg : Option MetaCfg) (t : Ty) (v : PyVal)
+    (hc : RT.Conf std cfg t v) (d : DVal) (h : dumpV std false cfg v = .ok d) : loadD std cfg t (RT.toJ d) = .ok v :=
+  RT.roundtrip std cfg laws t v hc d h
 
 /-- … and at the top level: `fromdict(cls, json.loads(json.dumps(asdict(x)))) == x` for every instance of a main class
-of the fragment. -/
+of the fragment, whatever Meta it declares (its travelling config is `rootConfig ci.cmeta`). -/
 theorem C01_roundtrip_root (std : Std) (laws : StdLaws std) (ci : ClassInfo) (ftys : List (S × Ty)) (v : PyVal)
-    (hc : RT.Conf std (.cls ci ftys) v) (d : DVal) (h : asdict std {} v = .ok d) :
+    (hc : RT.Conf std (rootConfig ci.cmeta) (.cls ci ftys) v) (d : DVal) (h : asdict std {} v = .ok d) :
     fromdict std (.cls ci ftys) (RT.toJ d) = .ok v :=
   RT.roundtrip_root std laws ci ftys v hc d h
 
-/-- the hypotheses are satisfiable by a nested model: `Root(inner_obj: Inner, by_name: dict[str, Inner], maybe:
-Optional[bool])` with `Inner(val_one: int, tags: list[str])` — both classes are `PlainCls`, and a concrete instance
-conforms. -/
+/-- the hypotheses are satisfiable by a nested, configured model: `Root(inner_obj: Inner, by_name: dict[str, Inner],
+maybe: Optional[bool])` declaring `key_transform_with_dump = 'LISP'` with `Inner(val_one: int, tags: list[str] =
+json_field(('TAGS', 'labels'), all=True))` — both classes are `PlainCls` below the root's config, and a concrete
+instance conforms. -/
 theorem C01_roundtrip_example (std : Std) :
-    RT.PlainCls RT.exRoot RT.exRootTys ∧ RT.PlainCls RT.exInner RT.exInnerTys ∧
-    RT.Conf std (.cls RT.exInner RT.exInnerTys)
+    RT.PlainCls RT.exCfg RT.exRoot RT.exRootTys ∧ RT.PlainCls RT.exCfg RT.exInner RT.exInnerTys ∧
+    RT.exCfg = rootConfig RT.exRoot.cmeta ∧
+    RT.Conf std RT.exCfg (.cls RT.exInner RT.exInnerTys)
       (.inst RT.exInner ((RT.exInnerTys.map (·.1)).zip [.int 3, .seq .list [.str "a".toList, .str [] ]])) := by
-  refine ⟨RT.exRoot_plain, RT.exInner_plain, RT.Conf.inst _ _ _ RT.exInner_plain rfl ?_⟩
+  refine ⟨RT.exRoot_plain, RT.exInner_plain, rfl, RT.Conf.inst _ _ _ RT.exInner_plain rfl ?_⟩
   intro p hp
   simp only [RT.exInnerTys, List.zip_cons_cons, List.zip_nil_right, List.mem_cons, List.not_mem_nil, or_false] at hp
   rcases hp with rfl | rfl
